@@ -181,3 +181,40 @@ def tcp_from_payload(ctx, P, rule, crates):
                                       "treated as TCP payload and enter reassembly" % T.pp(T.strip(recv))[:80], ctx.loc(b, blk))
     ctx.floor(rule, "TcpPacket::new call sites", n, 1)
     return n
+
+
+def ip_from_same_slice(ctx, P, rule, crates):
+    """Within one link-layer strategy (`try_ethernet_format`, `try_raw_ip_format`, `try_null_datalink_format`, their quick-filter
+    counterparts ..) the IPv4 and the IPv6 view are built from the SAME bytes: the slice after the link header.  A function that
+    constructs `Ipv4Packet::new(a)` and `Ipv6Packet::new(b)` (or hands a / b to `extract_ipv4_info` / `extract_ipv6_info`) with
+    different origins reads one IP version at the wrong offset."""
+    n = 0
+    for b in sorted(P.bodies.values(), key=lambda x: x.path):
+        if b.crate not in crates or not b.blocks or b.kind == "Closure":
+            continue
+        S = None
+        got = {}
+        for blk, t in b.calls():
+            nm = callee_of(t)
+            fam = None
+            if nm.endswith(("Ipv4Packet::<'a>::new", "Ipv4Packet::new", "::extract_ipv4_info")):
+                fam = "v4"
+            elif nm.endswith(("Ipv6Packet::<'a>::new", "Ipv6Packet::new", "::extract_ipv6_info")):
+                fam = "v6"
+            if fam is None:
+                continue
+            S = S or T.Slicer(b, P)
+            a = Q.call_args(b, S, blk, t)
+            # the payload of `IpPacket::Ipv4(bytes)` / `IpPacket::Ipv6(bytes)` of one parsed value is the same slice by construction:
+            # compare without the variant name
+            base = T.rebuild(T.canon_value(T.strip(a[0])), lambda x: x[1] if x[0] == "downcast" else None)
+            got.setdefault(fam, []).append((blk, T.pp(base)))
+        if "v4" in got and "v6" in got:
+            n += 1
+            o4 = {x for _, x in got["v4"]}
+            o6 = {x for _, x in got["v6"]}
+            ctx.check(o4 == o6, rule, "ip-views:%s" % T.short(b.path), "IPv4 and IPv6 views are built from the same slice %s" % sorted(o4)[:1],
+                      "%s builds the IPv4 view from %s and the IPv6 view from %s: one IP version is read at the wrong offset (the link-layer header is not skipped), "
+                      "so its header fields, addresses and TCP segment are garbage" % (T.short(b.path), sorted(o4), sorted(o6)), ctx.loc(b, got["v4"][0][0]))
+    ctx.floor(rule, "functions constructing both IP views", n, 3)
+    return n
